@@ -839,4 +839,169 @@ template <class T, class S> static inline double rot_scale_ (double angle_abs, b
 }
 template <class T, class S> static inline double rot_scale (double angle_abs, bool angle_rounded_to_T) { return rot_scale_<T, S> (angle_abs, angle_rounded_to_T, std::is_integral<S> ()); }
 
+// ===================================================================================================================
+// Generators of the ratio_* sub-checks (added later; nothing above changes its draw sequence).
+//   ratio: vectors in which one or two components are smaller than the largest by a factor 2^-k, k = 1 .. digits+10
+//          (down to far below eps relative to the largest, but never zero unless the pattern says so), every sign
+//          pattern, significands exactly 1 or random, the whole vector scaled by 2^e.  The property is a relation
+//          BETWEEN the components (a direction that is tilted out of a coordinate axis / plane by 2^-k rad), not a
+//          magnitude: an implementation that drops "round-off" components after normalising, or that compares a
+//          component with a fixed threshold, is wrong in this band by 2^-k and right everywhere else.
+// ===================================================================================================================
+struct RatioInfo
+{
+    int nsmall;     // components that are small relative to the largest (1 or 2)
+    int nzero;      // exactly zero components (0 or 1)
+    int kmin, kmax; // smallest / largest k over the small components
+    int e;          // exponent of the large components
+    int large_mask; // bit i: component i is a large one
+};
+// per-component class: L large (2^e), S small (2^(e-k), own k per component), Z exactly zero; >= 1 L and >= 1 S;
+// the six patterns without a zero are listed twice
+static const char C09_RATIO_PAT[18][4] = { "LLS", "LSL", "SLL", "LSS", "SLS", "SSL", "LLS", "LSL", "SLL", "LSS", "SLS", "SSL", "LSZ", "LZS", "SLZ", "ZLS", "SZL", "ZSL" };
+// e: 0 in half of the cases, else uniform in [emin, emax]; the caller keeps emin - (digits+10) above the smallest
+// normal exponent, so every non-zero component is a normal number
+template <class T> static inline Vec3<T> gen_ratio_vec (vp::Src& s, RatioInfo& ri, int emin, int emax)
+{
+    const int   kall = Dig<T>::n + 10;
+    const char* pat  = C09_RATIO_PAT[s.below (18)];
+    int         sg   = (int) s.below (8); // sign pattern
+    int         mc   = (int) s.below (4); // bit 0: small components get a random significand, bit 1: large ones
+    int         ec   = (int) s.below (4);
+    int         e    = 0;
+    if (ec >= 2) e = (int) s.range (emin, emax);
+    ri.nsmall = ri.nzero = 0;
+    ri.kmin   = kall + 1;
+    ri.kmax   = 0;
+    ri.e      = e;
+    ri.large_mask = 0;
+    Vec3<T> v;
+    for (int i = 0; i < 3; ++i)
+    {
+        bool neg = (sg >> i) & 1;
+        if (pat[i] == 'Z')
+        {
+            v[i] = neg ? -(T) 0 : (T) 0;
+            ++ri.nzero;
+            continue;
+        }
+        int  k   = 0;
+        bool rnd = mc & 2;
+        if (pat[i] == 'S')
+        {
+            k   = (int) s.range (1, kall);
+            rnd = mc & 1;
+            ++ri.nsmall;
+            if (k < ri.kmin) ri.kmin = k;
+            if (k > ri.kmax) ri.kmax = k;
+        }
+        else
+            ri.large_mask |= 1 << i;
+        double m = 1.0;
+        if (rnd) m += s.unit ();
+        T a  = (T) std::ldexp (m, e - k);
+        v[i] = neg ? -a : a;
+    }
+    return v;
+}
+// b at a generic angle theta from a: uniform in [0.05, 3.09] (3/4) or a right angle (1/4), about a random perpendicular,
+// length 2^[-4,4] (1 + u); constructed in quad, rounded to T.  |sin theta| >= 0.05: well inside the contract.
+template <class T> static inline void gen_generic_partner (vp::Src& s, const Vec3<T>& a, Vec3<T>& b)
+{
+    Q3 ah = unit (toq (a));
+    Q3 w{ 0, 0, 0 };
+    if (qabs (ah.x) <= qabs (ah.y) && qabs (ah.x) <= qabs (ah.z))
+        w.x = 1;
+    else if (qabs (ah.y) <= qabs (ah.z))
+        w.y = 1;
+    else
+        w.z = 1;
+    Q3     e   = unit (cross (ah, w));
+    Q3     f   = cross (ah, e);
+    double phi = s.uniform (0.0, 6.283185307179586);
+    int    tc  = (int) s.below (4);
+    double th  = 1.57079632679489661923;
+    if (tc != 0) th = s.uniform (0.05, 3.09);
+    double bm = 1.0 + s.unit ();
+    int    be = (int) s.range (-4, 4);
+    quad   bl = (quad) std::ldexp (bm, be);
+    Q3     p  = e * cosq ((quad) phi) + f * sinq ((quad) phi);
+    Q3     bq = tc == 0 ? p * bl : (ah * cosq ((quad) th) + p * sinq ((quad) th)) * bl;
+    b.x       = (T) bq.x;
+    b.y       = (T) bq.y;
+    b.z       = (T) bq.z;
+}
+// a and b perpendicular to n with a x b parallel to +n, at an angle theta in [0.05, 3.09] (3/4) or a right angle,
+// lengths 2^[-4,4] (1 + u); constructed in quad, rounded to T (so a x b = |a||b| sin(theta) (n^ + O(eps)))
+template <class T> static inline void gen_perp_pair (vp::Src& s, const Vec3<T>& n, Vec3<T>& a, Vec3<T>& b)
+{
+    Q3 nh = unit (toq (n));
+    Q3 w{ 0, 0, 0 };
+    if (qabs (nh.x) <= qabs (nh.y) && qabs (nh.x) <= qabs (nh.z))
+        w.x = 1;
+    else if (qabs (nh.y) <= qabs (nh.z))
+        w.y = 1;
+    else
+        w.z = 1;
+    Q3     e1  = unit (cross (nh, w));
+    Q3     e2  = cross (nh, e1);
+    double phi = s.uniform (0.0, 6.283185307179586);
+    int    tc  = (int) s.below (4);
+    double th  = 1.57079632679489661923;
+    if (tc != 0) th = s.uniform (0.05, 3.09);
+    double am = 1.0 + s.unit ();
+    int    ae = (int) s.range (-4, 4);
+    double bm = 1.0 + s.unit ();
+    int    be = (int) s.range (-4, 4);
+    quad   al = (quad) std::ldexp (am, ae), bl = (quad) std::ldexp (bm, be);
+    quad   p2 = (quad) phi + (quad) th;
+    Q3     aq = (e1 * cosq ((quad) phi) + e2 * sinq ((quad) phi)) * al;
+    Q3     bq = (e1 * cosq (p2) + e2 * sinq (p2)) * bl;
+    a         = Vec3<T> ((T) aq.x, (T) aq.y, (T) aq.z);
+    b         = Vec3<T> ((T) bq.x, (T) bq.y, (T) bq.z);
+}
+enum
+{
+    RP_FIRST,        // a is the ratio vector, b a generic partner
+    RP_SECOND,       // b is the ratio vector, a a generic partner
+    RP_CROSS,        // a x b is (within rounding) parallel to a ratio vector: both perpendicular to it
+    RP_AXIS_ALIGNED, // a = +-2^j e_i, b the ratio vector: every cross product of the two has a single exact term
+    RP_NMODES
+};
+// pair of directions for the two-direction frame builders; returns the RP_ mode, ri describes the ratio vector
+template <class T> static inline int gen_ratio_pair (vp::Src& s, Vec3<T>& a, Vec3<T>& b, RatioInfo& ri)
+{
+    int mode = (int) s.below (RP_NMODES);
+    switch (mode)
+    {
+        case RP_FIRST:
+            a = gen_ratio_vec<T> (s, ri, -8, 8);
+            gen_generic_partner<T> (s, a, b);
+            break;
+        case RP_SECOND:
+            b = gen_ratio_vec<T> (s, ri, -8, 8);
+            gen_generic_partner<T> (s, b, a);
+            break;
+        case RP_CROSS:
+        {
+            Vec3<T> n = gen_ratio_vec<T> (s, ri, -8, 8);
+            gen_perp_pair<T> (s, n, a, b);
+            break;
+        }
+        default:
+        {
+            b      = gen_ratio_vec<T> (s, ri, -8, 8);
+            int  i = (int) s.below (3);
+            bool ng = s.coin ();
+            int  j = (int) s.range (-8, 8);
+            // not along the only large component of b (that pair would be nearly parallel)
+            if (ri.large_mask == (1 << i)) i = (i + 1) % 3;
+            a    = Vec3<T> ((T) 0, (T) 0, (T) 0);
+            a[i] = std::ldexp (ng ? (T) -1 : (T) 1, j);
+            break;
+        }
+    }
+    return mode;
+}
+
 } // namespace c09
